@@ -538,7 +538,8 @@ Lemma op_eval_frame o vs c lg r lg' :
 Proof.
   intros H. split.
   - rewrite <- op_eval_log, H. reflexivity.
-  - intros lgx. rewrite <- op_eval_log, (op_eval_fst o vs c lgx lg), H.
+  - intros lgx. assert (Hr : r = fst (op_eval O o vs c lg)) by (rewrite H; reflexivity).
+    rewrite Hr, (op_eval_fst o vs c lg lgx), <- op_eval_log.
     destruct (op_eval O o vs c lgx); reflexivity.
 Qed.
 
